@@ -230,17 +230,21 @@ __inst_to_epoch(echs_instant_t i)
 		306U, 337U, 0U, 31U, 61U, 92U,
 		122U, 153U, 184U, 214U, 245U, 275U
 	};
-	/* years run from Mar to Feb, Jan and Feb belong to the previous one */
-	unsigned int by = i.y - DAISY_BASE_YEAR - (i.m <= 2U);
+	/* years run from Mar to Feb, Jan and Feb belong to the previous one;
+	 * counted from Mar 1900 so that nothing goes negative before 1948,
+	 * that's 48 * 365 + 12 days before DAISY_BASE_YEAR */
+	unsigned int by = i.y - (DAISY_BASE_YEAR - 48U) - (i.m <= 2U);
 	/* no bullshit years in our lifetime */
 	unsigned int j0 = by * 365U + by / 4U;
 	/* yday by lookup */
 	unsigned int yd = (LIKELY(i.m <= 12U))
 		? __mon_yday[i.m] + i.d
 		: 0U;
+	/* days since the unix epoch, negative before 1970 */
+	time_t nd = (time_t)(j0 + yd) - (time_t)(DAISY_UNIX_BASE + 48U * 365U + 12U);
 
-	return ((((j0 + yd - DAISY_UNIX_BASE) * 24U +
-		  (LIKELY(i.H <= 24U) ? i.H : 24U)) * 60U + i.M) * 60U) + i.S;
+	return (((nd * 24 +
+		  (time_t)(LIKELY(i.H <= 24U) ? i.H : 24U)) * 60 + (time_t)i.M) * 60) + (time_t)i.S;
 }
 
 static echs_instant_t
